@@ -113,41 +113,50 @@ def run(chk):
     chk.ob("R2", sql, node_f, "Filter on a fresh query -> query.where",
            bool(d_before) and all(d == {f"{qname}.where"} for d in d_before),
            f"a filter before any summarize puts its predicates into {sorted(set().union(*d_before)) if d_before else '?'} instead of WHERE")  # fmt: skip
-    # compile_query, one-hot
+    # compile_query: interpreted on one-hot query states (pipesim); the partial evaluation of its if-statements is the fallback
+    from .. import pipesim as _psq
+
+    def _compile_query_onehot():
+        # compile_query, one-hot
+        cq = sql.func("SqlImpl.compile_query")
+        qparam = cq.args.args[2].arg
+        tparam = cq.args.args[1].arg
+        fields = ["where", "group_by", "having", "order_by", "limit", "select"]
+        n2 = 0
+        for hot in fields + ["offset-with-limit", "offset-alone"]:
+            b = {f"{qparam}.{f}": [] for f in ("where", "group_by", "having", "order_by", "select")}
+            b[f"{qparam}.limit"] = None
+            b[f"{qparam}.offset"] = None
+            b[tparam] = Sym("table")
+            if hot == "limit":
+                b[f"{qparam}.limit"] = 5
+            elif hot == "offset-with-limit":
+                b[f"{qparam}.limit"] = 5
+                b[f"{qparam}.offset"] = 2
+            elif hot == "offset-alone":
+                b[f"{qparam}.offset"] = 2
+            else:
+                b[f"{qparam}.{hot}"] = [Sym("x")]
+            try:
+                outs = Evaluator(b).run_function(cq)
+            except Unsupported as u:
+                raise AnalysisError(f"C04/R2: cannot evaluate compile_query: {u}") from u
+            for ret, env, _ in outs:
+                n2 += 1
+                got = {t[1] for t in all_tags(ret) if t[0] == "call"} & CLAUSE_METHODS
+                want = {"with_only_columns"}
+                if hot in CLAUSES:
+                    want |= CLAUSES[hot]
+                if hot == "offset-with-limit":
+                    want |= {"limit", "offset"}
+                chk.ob("R2", sql, cq, f"compile_query with only query.{hot} set -> clauses {sorted(got)}", got == want,
+                       f"with only `{hot}` set compile_query emits the clauses {sorted(got)}, expected {sorted(want)}")  # fmt: skip
+        chk.floor("R2", "compile_query valuations", n2, 8)
+
     cq = sql.func("SqlImpl.compile_query")
-    qparam = cq.args.args[2].arg
-    tparam = cq.args.args[1].arg
-    fields = ["where", "group_by", "having", "order_by", "limit", "select"]
-    n2 = 0
-    for hot in fields + ["offset-with-limit", "offset-alone"]:
-        b = {f"{qparam}.{f}": [] for f in ("where", "group_by", "having", "order_by", "select")}
-        b[f"{qparam}.limit"] = None
-        b[f"{qparam}.offset"] = None
-        b[tparam] = Sym("table")
-        if hot == "limit":
-            b[f"{qparam}.limit"] = 5
-        elif hot == "offset-with-limit":
-            b[f"{qparam}.limit"] = 5
-            b[f"{qparam}.offset"] = 2
-        elif hot == "offset-alone":
-            b[f"{qparam}.offset"] = 2
-        else:
-            b[f"{qparam}.{hot}"] = [Sym("x")]
-        try:
-            outs = Evaluator(b).run_function(cq)
-        except Unsupported as u:
-            raise AnalysisError(f"C04/R2: cannot evaluate compile_query: {u}") from u
-        for ret, env, _ in outs:
-            n2 += 1
-            got = {t[1] for t in all_tags(ret) if t[0] == "call"} & CLAUSE_METHODS
-            want = {"with_only_columns"}
-            if hot in CLAUSES:
-                want |= CLAUSES[hot]
-            if hot == "offset-with-limit":
-                want |= {"limit", "offset"}
-            chk.ob("R2", sql, cq, f"compile_query with only query.{hot} set -> clauses {sorted(got)}", got == want,
-                   f"with only `{hot}` set compile_query emits the clauses {sorted(got)}, expected {sorted(want)}")  # fmt: skip
-    chk.floor("R2", "compile_query valuations", n2, 8)
+    cq_interpreted = _psq.report_compile_query(chk, m, "R2", ("where", "having", "group", "limit", "offset", "select"), floor=40)
+    if not cq_interpreted:
+        _compile_query_onehot()
 
     from .. import pipesim as _ps
 
@@ -323,8 +332,9 @@ def run(chk):
     chk.ob("R5", sql, scfg.func, "sql Summarize clears ORDER BY", "query.order_by.clear()" in src or "query.order_by = []" in src,
            "SQL summarize keeps an ORDER BY over columns that no longer exist after aggregation")  # fmt: skip
     gb = [c for c in calls_in(cq) if isinstance(c.func, ast.Attribute) and c.func.attr == "group_by"]
-    chk.ob("R5", sql, cq, "compile_query: GROUP BY sqa_expr[uid] for uid in query.group_by", len(gb) == 1 and "for uid in query.group_by" in norm(gb[0]),
-           "compile_query does not render GROUP BY from query.group_by")  # fmt: skip
+    if not cq_interpreted:  # (decided by the interpreted compile_query above otherwise)
+        chk.ob("R5", sql, cq, "compile_query: GROUP BY sqa_expr[uid] for uid in query.group_by", len(gb) == 1 and "for uid in query.group_by" in norm(gb[0]),
+               "compile_query does not render GROUP BY from query.group_by")  # fmt: skip
 
     # ---- R6 summarize validation
     vb = repo.mod("pipe.verbs")
